@@ -114,7 +114,7 @@ PURE_MODULES = {'bisect', 'math', 'operator', 'string'}
 def _has_internal(vals) -> bool:
     """Is one of the values an object of the folder's own representation (not a plain Python value a stdlib function understands)?"""
     for v in vals:
-        if isinstance(v, (DV, EV, ClsRef, Bound, OrdInt)):
+        if isinstance(v, (DV, EV, ClsRef, Bound, OrdInt, IntervalInt, OpaqueText)):
             return True
         if isinstance(v, tuple) and v and isinstance(v[0], str) and v[0] in ('lambda', 'closure', 'func', 'pyfunc', 'builtin', 'strmethod', 'pymodule', 'extern'):
             return True
@@ -202,6 +202,252 @@ class OrdInt:
     __add__ = __radd__ = __sub__ = __rsub__ = __mul__ = __rmul__ = __floordiv__ = __rfloordiv__ = __truediv__ = __rtruediv__ = _no
     __mod__ = __rmod__ = __divmod__ = __rdivmod__ = __pow__ = __rpow__ = __lshift__ = __rlshift__ = __rshift__ = __rrshift__ = _no
     __and__ = __rand__ = __or__ = __ror__ = __xor__ = __rxor__ = _no
+
+
+class OpaqueText:
+    """A text of the subject of which only the length and the places of its line breaks are known: a sequence of symbols, each a known
+    character or an opaque one (an integer id standing for "some character that is not a line break").  Length, indexing, slicing,
+    concatenation, iteration and tests against line breaks are answered; anything that depends on what the opaque characters are leaves
+    the abstraction (Unsupported), so a result obtained on one text of each length holds for every text of that length."""
+    _sa_native = True
+    __slots__ = ('syms',)
+
+    def __init__(self, syms):
+        self.syms = tuple(syms)
+
+    @staticmethod
+    def of_length(n: int, newline_at_end: bool = False):
+        return OpaqueText(list(range(n)) + (['\n'] if newline_at_end else []))
+
+    def __repr__(self):
+        return '<text ' + ''.join(x if isinstance(x, str) and x != '\n' else '\\n' if x == '\n' else '?' for x in self.syms[:20]) + f'... len {len(self.syms)}>'
+
+    def __len__(self):
+        return len(self.syms)
+
+    def __getitem__(self, k):
+        if isinstance(k, slice):
+            return OpaqueText(self.syms[k])
+        if isinstance(k, bool) or not isinstance(k, int):
+            raise FoldRaise('TypeError', 'string indices must be integers')
+        try:
+            return OpaqueText((self.syms[k],))
+        except IndexError:
+            raise FoldRaise('IndexError', 'string index out of range')
+
+    def __iter__(self):
+        return iter([OpaqueText((x,)) for x in self.syms])
+
+    @staticmethod
+    def _syms_of(o):
+        if isinstance(o, OpaqueText):
+            return o.syms
+        if isinstance(o, str):
+            return tuple(o)
+        return None
+
+    def __add__(self, o):
+        t = self._syms_of(o)
+        if t is None:
+            raise FoldRaise('TypeError', 'can only concatenate str to str')
+        return OpaqueText(self.syms + t)
+
+    def __radd__(self, o):
+        t = self._syms_of(o)
+        if t is None:
+            raise FoldRaise('TypeError', 'can only concatenate str to str')
+        return OpaqueText(t + self.syms)
+
+    def _same(self, o):
+        t = self._syms_of(o)
+        if t is None:
+            return False
+        if len(t) != len(self.syms):
+            return False
+        for a, b in zip(self.syms, t):
+            if isinstance(a, str) and isinstance(b, str):
+                if a != b:
+                    return False
+            elif isinstance(a, int) and isinstance(b, int):
+                if a != b:
+                    raise Unsupported('comparison of two unknown characters of an opaque text')
+            else:
+                c = a if isinstance(a, str) else b
+                if c in '\r\n':
+                    return False        # an opaque character is not a line break
+                raise Unsupported(f'comparison of an unknown character of an opaque text with {c!r}')
+        return True
+
+    def __eq__(self, o):
+        return self._same(o)
+
+    def __ne__(self, o):
+        return not self._same(o)
+
+    def __contains__(self, o):
+        if o in ('\n', '\r'):
+            return o in self.syms
+        raise Unsupported('search for a character in an opaque text')
+
+    def count(self, o):
+        if o in ('\n', '\r'):
+            return sum(1 for x in self.syms if x == o)
+        raise Unsupported('count of a character in an opaque text')
+
+    def endswith(self, o):
+        t = self._syms_of(o)
+        return len(t) <= len(self.syms) and OpaqueText(self.syms[len(self.syms) - len(t):])._same(o) if t else True
+
+    def startswith(self, o):
+        t = self._syms_of(o)
+        return len(t) <= len(self.syms) and OpaqueText(self.syms[:len(t)])._same(o) if t else True
+
+    def __bool__(self):
+        return bool(self.syms)
+
+    def _no(self, *a, **k):
+        raise Unsupported('an opaque text is used in an operation that depends on its characters')
+
+    __hash__ = __str__ = __format__ = __lt__ = __le__ = __gt__ = __ge__ = __mul__ = __rmul__ = __mod__ = _no
+
+
+class SplitInterval(BaseException):
+    """An interval-abstract integer met an operation whose outcome differs inside its interval: `cuts` are the integers c such that
+    the interval must be split between c-1 and c."""
+
+    def __init__(self, cuts):
+        super().__init__(f'split before {cuts}')
+        self.cuts = list(cuts)
+
+
+class IntervalInt:
+    """An integer of the subject known only to lie in [lo, hi] (None = unbounded).  Comparisons with integer constants are answered
+    when the whole interval agrees, otherwise the evaluation asks for the interval to be split at that constant (SplitInterval) and the
+    driver (partition_fold) re-runs on the parts: the partition refines itself to exactly the constants the code distinguishes, however
+    the code is written (loop over a table, bisect, chained ifs).  abs(), unary minus, + - with constants keep the abstraction; anything
+    that needs the exact value (indexing, formatting, hashing) leaves it (Unsupported)."""
+    __slots__ = ('lo', 'hi', 'sign', 'off')
+
+    def __init__(self, lo, hi, sign=1, off=0):
+        self.lo, self.hi = lo, hi
+        self.sign, self.off = sign, off       # this value = sign * (the partitioned variable) + off
+
+    def _split(self, cuts):
+        """Cuts on THIS value (boundary between c-1 and c) expressed as cuts on the partitioned variable."""
+        raise SplitInterval([c - self.off if self.sign > 0 else self.off - c + 1 for c in cuts])
+
+    def __repr__(self):
+        return f'<int in [{"-inf" if self.lo is None else self.lo}, {"+inf" if self.hi is None else self.hi}]>'
+
+    def _below(self, c):      # every value < c ?   True / False / None (straddles)
+        if self.hi is not None and self.hi < c:
+            return True
+        if self.lo is not None and self.lo >= c:
+            return False
+        return None
+
+    def _cmp(self, o, kind):
+        if isinstance(o, bool) or not isinstance(o, int):
+            if isinstance(o, IntervalInt):
+                if o.lo is not None and o.lo == o.hi:
+                    return self._cmp(o.lo, kind)
+                raise Unsupported('comparison of two interval-abstract integers')
+            return NotImplemented
+        if kind == '<':
+            r, cuts = self._below(o), [o]
+        elif kind == '>=':
+            r, cuts = self._below(o), [o]
+            r = None if r is None else not r
+        elif kind == '<=':
+            r, cuts = self._below(o + 1), [o + 1]
+        elif kind == '>':
+            r, cuts = self._below(o + 1), [o + 1]
+            r = None if r is None else not r
+        else:       # == / !=
+            if self.lo is not None and self.lo == self.hi:
+                r = self.lo == o
+            elif self._below(o) is True or self._below(o + 1) is False:
+                r = False
+            else:
+                r = None
+            cuts = [o, o + 1]
+            if r is not None and kind == '!=':
+                r = not r
+        if r is None:
+            self._split(cuts)
+        return r
+
+    def __lt__(self, o): return self._cmp(o, '<')      # noqa: E704
+    def __le__(self, o): return self._cmp(o, '<=')     # noqa: E704
+    def __gt__(self, o): return self._cmp(o, '>')      # noqa: E704
+    def __ge__(self, o): return self._cmp(o, '>=')     # noqa: E704
+    def __eq__(self, o): return self._cmp(o, '==')     # noqa: E704
+    def __ne__(self, o): return self._cmp(o, '!=')     # noqa: E704
+
+    def __bool__(self):
+        return self._cmp(0, '!=')
+
+    def __neg__(self):
+        return IntervalInt(None if self.hi is None else -self.hi, None if self.lo is None else -self.lo, -self.sign, -self.off)
+
+    def __pos__(self):
+        return self
+
+    def __abs__(self):
+        if self.lo is not None and self.lo >= 0:
+            return self
+        if self.hi is not None and self.hi <= 0:
+            return -self
+        self._split([0, 1])
+
+    def _shift(self, k):
+        return IntervalInt(None if self.lo is None else self.lo + k, None if self.hi is None else self.hi + k, self.sign, self.off + k)
+
+    def __add__(self, o):
+        if isinstance(o, int) and not isinstance(o, bool):
+            return self._shift(o)
+        raise Unsupported('arithmetic on an interval-abstract integer')
+
+    __radd__ = __add__
+
+    def __sub__(self, o):
+        if isinstance(o, int) and not isinstance(o, bool):
+            return self._shift(-o)
+        raise Unsupported('arithmetic on an interval-abstract integer')
+
+    def __rsub__(self, o):
+        return (-self).__add__(o)
+
+    def _no(self, *a, **k):
+        raise Unsupported('an interval-abstract integer is used in an operation that needs its exact value')
+
+    __hash__ = __str__ = __format__ = __index__ = __int__ = __float__ = __invert__ = __round__ = _no
+    __mul__ = __rmul__ = __floordiv__ = __rfloordiv__ = __truediv__ = __rtruediv__ = __mod__ = __rmod__ = __divmod__ = __rdivmod__ = _no
+    __pow__ = __rpow__ = __lshift__ = __rlshift__ = __rshift__ = __rrshift__ = __and__ = __rand__ = __or__ = __ror__ = __xor__ = __rxor__ = _no
+
+
+def partition_fold(call, lo=None, hi=None, limit=4000):
+    """Evaluates call(IntervalInt) on a partition of [lo, hi] refined until every part gives one answer: [(lo, hi, result)] in order."""
+    work = [(lo, hi)]
+    leaves = []
+    n = 0
+    while work:
+        a, b = work.pop()
+        n += 1
+        if n > limit:
+            raise Unsupported('the partition of the integers does not stabilise')
+        try:
+            r = call(IntervalInt(a, b))
+        except SplitInterval as sp:
+            cuts = sorted(c for c in sp.cuts if (a is None or c > a) and (b is None or c <= b))
+            if not cuts:
+                raise Unsupported(f'no progress splitting [{a}, {b}] at {sp.cuts}')
+            c = cuts[0]
+            work.append((c, b))
+            work.append((a, c - 1))
+            continue
+        leaves.append((a, b, r))
+    return sorted(leaves, key=lambda t: (t[0] is not None, t[0] if t[0] is not None else 0))
 
 
 class _GenClose(BaseException):
@@ -637,6 +883,27 @@ class Folder:
                 env[p] = dc[id(dmap[p])]
             else:
                 raise Unsupported(f'missing argument {p} for {fn.name}')
+        # keyword-only parameters, *args, **kwargs
+        for a_, d_ in zip(fn.args.kwonlyargs, fn.args.kw_defaults):
+            if a_.arg in kw:
+                env[a_.arg] = kw[a_.arg]
+            elif d_ is not None:
+                dc = self.__dict__.setdefault('_default_cache', {})
+                if id(d_) not in dc:
+                    dc[id(d_)] = self._eval(d_, {}, mod, ci)
+                env[a_.arg] = dc[id(d_)]
+            else:
+                raise FoldRaise('TypeError', f'{fn.name}() missing required keyword-only argument {a_.arg!r}')
+        if fn.args.vararg is not None:
+            env[fn.args.vararg.arg] = tuple(pos[len(params):])
+        elif len(pos) > len(params):
+            raise FoldRaise('TypeError', f'{fn.name}() takes {len(params)} positional arguments but {len(pos)} were given')
+        known = set(params) | {a_.arg for a_ in fn.args.kwonlyargs}
+        extra_kw = {k_: v_ for k_, v_ in kw.items() if k_ not in known}
+        if fn.args.kwarg is not None:
+            env[fn.args.kwarg.arg] = extra_kw
+        elif extra_kw:
+            raise FoldRaise('TypeError', f'{fn.name}() got an unexpected keyword argument {sorted(extra_kw)[0]!r}')
         is_gen = _GEN_CACHE.get(id(fn))
         if is_gen is None:
             is_gen = _GEN_CACHE[id(fn)] = any(isinstance(x, (ast.Yield, ast.YieldFrom)) for x in _own_nodes(fn))
